@@ -43,12 +43,15 @@ CHECKS = {
     "C16": (
         "MkvsWire.tla (transcribed storage decoders as a byte-level parser) generates every small encoding with every single "
         "structural mutation; cases and seeded mutation neighbourhoods are fed to the real decoders/verifiers under panic, "
-        "deadline and allocation guards; hostile transaction bytes are delivered to live multiplexers",
+        "deadline and allocation guards; structural sweeps of valid quotes, collateral, reports, descriptors, commitments and "
+        "protocol frames; HostProto.tla (runtime host protocol connection vs. a misbehaving runtime) checked by TLC and its scripts "
+        "replayed on the real connection; hostile transaction bytes are delivered to live multiplexers",
         "Grammar-derived exhaustive boundary cases (TLC) plus seeded random neighbourhoods on ten decode/verify entry points; "
         "accept/reject of node.UnmarshalBinary is compared with the transcription (drift), every entry point must terminate "
         "without panic, hang or allocation blow-up.",
-        "Decides the property on generated inputs only; no coverage-guided fuzzing of the CBOR library, AVR/IAS parsing or the "
-        "runtime-host protocol. Trusted: TLC, JSON bridge.", "DESIGN.md 4 C16"),
+        "Decides the property on generated inputs only (grammar-derived cases, structural sweeps, model-derived frame scripts); no "
+        "coverage-guided fuzzing. The host protocol model covers responses, cancellation, a stalled peer and Close, not requests "
+        "from the runtime to the host beyond the handshake. Trusted: TLC, JSON bridge.", "DESIGN.md 4 C16, R.9"),
     "C17": (
         "Registry.tla (admission check + key-index update of node registration) checked by TLC; one behaviour per distinct "
         "(pre-state, operation) pair replayed on the real registry application; K1-K5/A1 evaluated by TLC (TraceRegistry.tla) on "
